@@ -60,6 +60,98 @@ type Spec struct {
 	// ShortTraces: trace numbers are replaced by their sequence part without leading zeros ("1", "27"), valid only
 	// under CustomTraceNumbers + BypassOriginValidation, which the files then carry.
 	ShortTraces bool `json:"short_traces,omitempty"`
+	// FileOpts, one per file (missing = 0): options only this file carries, so that lists mix files with nil options,
+	// with non-nil options that lack a flag and with options another file's entries depend on.
+	// 1: non-nil empty ValidateOpts; 2: short trace numbers (as ShortTraces, this file only);
+	// 3: one forward entry with amount zero under AllowZeroEntryAmount; 4: non-nil options with an unrelated flag;
+	// 5: 15 digit trace numbers foreign to the ODFI under CustomTraceNumbers alone.
+	FileOpts []int `json:"file_opts,omitempty"`
+	// ShiftTraces, one per file (missing = 0): k > 0 adds k*100000 to the sequence part of every trace number (batches
+	// rebuilt), so that files with equal headers do not collide.
+	ShiftTraces []int `json:"shift_traces,omitempty"`
+}
+
+func (s Spec) shift(i int) int {
+	if i < len(s.ShiftTraces) {
+		return s.ShiftTraces[i]
+	}
+	return 0
+}
+
+func shiftTraces(f *ach.File, k int) error {
+	for _, b := range f.Batches {
+		for _, e := range b.GetEntries() {
+			t := e.TraceNumber
+			if len(t) != 15 {
+				return fmt.Errorf("trace number %q", t)
+			}
+			var seq int
+			if _, err := fmt.Sscanf(t[8:], "%d", &seq); err != nil {
+				return err
+			}
+			e.TraceNumber = fmt.Sprintf("%s%07d", t[:8], (seq+k*100000)%10000000)
+		}
+		if err := b.Create(); err != nil {
+			return err
+		}
+	}
+	if err := f.Create(); err != nil {
+		return err
+	}
+	return f.Validate()
+}
+
+func (s Spec) fileOpt(i int) int {
+	if i < len(s.FileOpts) {
+		return s.FileOpts[i]
+	}
+	return 0
+}
+
+// setAllValidation stores opts with the file and every batch (what the Reader does for a file read under them)
+func setAllValidation(f *ach.File, opts *ach.ValidateOpts) {
+	f.SetValidation(opts)
+	for _, b := range f.Batches {
+		b.SetValidation(opts)
+	}
+	for i := range f.IATBatches {
+		f.IATBatches[i].SetValidation(opts)
+	}
+}
+
+// zeroAmount gives one forward entry of the file the amount zero and lets the file carry AllowZeroEntryAmount;
+// false if the file has no such entry or does not validate afterwards (the caller then regenerates it).
+func zeroAmount(f *ach.File) bool {
+	if f.GetValidation() != nil {
+		return false
+	}
+	for _, b := range f.Batches {
+		sec := b.GetHeader().StandardEntryClassCode
+		if sec == ach.ADV || sec == ach.COR || sec == ach.ENR || sec == ach.DNE {
+			continue
+		}
+		if strings.EqualFold(strings.TrimSpace(b.GetHeader().CompanyEntryDescription), "PRENOTE") {
+			continue
+		}
+		for _, e := range b.GetEntries() {
+			if e.Amount <= 0 || e.Category != ach.CategoryForward {
+				continue
+			}
+			switch e.TransactionCode % 10 {
+			case 2, 7: // live credit / debit
+			default:
+				continue
+			}
+			opts := &ach.ValidateOpts{AllowZeroEntryAmount: true}
+			setAllValidation(f, opts)
+			e.Amount = 0
+			if b.Create() != nil || f.Create() != nil || f.Validate() != nil {
+				return false
+			}
+			return true
+		}
+	}
+	return false
 }
 
 // Files builds the files in the given order (a permutation of 0..n-1; nil = identity).
@@ -71,7 +163,7 @@ func (s Spec) Files(order []int) ([]*ach.File, error) {
 	out := make([]*ach.File, 0, n)
 	made := map[string]*ach.File{}
 	for _, i := range order {
-		k := fmt.Sprintf("%d/%d/%d", s.Seeds[i], s.Tweaks[i], s.reroute(i))
+		k := fmt.Sprintf("%d/%d/%d/%d/%d", s.Seeds[i], s.Tweaks[i], s.reroute(i), s.fileOpt(i), s.shift(i))
 		if s.SamePointer && made[k] != nil {
 			out = append(out, made[k])
 			continue
@@ -85,6 +177,11 @@ func (s Spec) Files(order []int) ([]*ach.File, error) {
 		}
 		if err := ApplyReroute(f, s.reroute(i)); err != nil {
 			return nil, err
+		}
+		if k := s.shift(i); k > 0 {
+			if err := shiftTraces(f, k); err != nil {
+				return nil, fmt.Errorf("shifting trace numbers: %w", err)
+			}
 		}
 		if s.NeedOpts {
 			// a destination whose check digit is wrong: the file is valid only under the ValidateOpts it carries
@@ -100,6 +197,40 @@ func (s Spec) Files(order []int) ([]*ach.File, error) {
 		if s.ShortTraces {
 			shortTraces(f)
 		}
+		switch s.fileOpt(i) {
+		case 1:
+			if f.GetValidation() == nil {
+				setAllValidation(f, &ach.ValidateOpts{})
+			}
+		case 2:
+			if !s.ShortTraces {
+				shortTraces(f)
+			}
+		case 3:
+			if !zeroAmount(f) {
+				// start again from the generator: the attempt may have left the file half changed
+				if f, err = gen.File(gen.NewRand(s.Seeds[i]), s.Opts); err != nil {
+					return nil, err
+				}
+				if err := ApplyTweak(f, s.Tweaks[i]); err != nil {
+					return nil, err
+				}
+				if err := ApplyReroute(f, s.reroute(i)); err != nil {
+					return nil, err
+				}
+			}
+		case 5:
+			if !s.ShortTraces {
+				foreignTraces(f)
+			}
+		case 4:
+			if f.GetValidation() == nil {
+				setAllValidation(f, &ach.ValidateOpts{AllowUnorderedBatchNumbers: true})
+				if f.Validate() != nil {
+					setAllValidation(f, nil)
+				}
+			}
+		}
 		made[k] = f
 		out = append(out, f)
 	}
@@ -109,6 +240,22 @@ func (s Spec) Files(order []int) ([]*ach.File, error) {
 // shortTraces rewrites every standard entry's trace number to its sequence part without leading zeros and lets the
 // file carry the options under which that is valid; undone if the file does not validate then.
 func shortTraces(f *ach.File) {
+	rewriteTraces(f, func(t string) string {
+		t = strings.TrimLeft(t[8:], "0")
+		if t == "" {
+			t = "0"
+		}
+		return t
+	}, true)
+}
+
+// foreignTraces gives every standard entry a 15 digit trace number that does not start with the batch's ODFI, valid
+// only under CustomTraceNumbers, which the file then carries (and nothing else).
+func foreignTraces(f *ach.File) {
+	rewriteTraces(f, func(t string) string { return "55500000" + t[8:] }, false)
+}
+
+func rewriteTraces(f *ach.File, fn func(string) string, bypassOrigin bool) {
 	type sv struct {
 		e *ach.EntryDetail
 		t string
@@ -131,17 +278,14 @@ func shortTraces(f *ach.File) {
 	for _, b := range f.Batches {
 		for _, e := range b.GetEntries() {
 			old = append(old, sv{e, e.TraceNumber})
-			t := strings.TrimLeft(e.TraceNumber[8:], "0")
-			if t == "" {
-				t = "0"
-			}
-			e.TraceNumber = t
+			e.TraceNumber = fn(e.TraceNumber)
 		}
 	}
-	opts := &ach.ValidateOpts{CustomTraceNumbers: true, BypassOriginValidation: true}
+	opts := &ach.ValidateOpts{CustomTraceNumbers: true, BypassOriginValidation: bypassOrigin}
 	if prevOpts != nil {
 		o := *prevOpts
-		o.CustomTraceNumbers, o.BypassOriginValidation = true, true
+		o.CustomTraceNumbers = true
+		o.BypassOriginValidation = o.BypassOriginValidation || bypassOrigin
 		opts = &o
 	}
 	f.SetValidation(opts)
@@ -277,6 +421,21 @@ func Shuffled(r *gen.Rand, n int) []int {
 // DrawSpec draws a list of 0..maxFiles valid non-IAT non-ADV files whose batch
 // headers overlap (HeaderPool), whose trace numbers collide (PresetTraces +
 // CollidingTraces), which repeat (equal seeds) and which use 1..3 routing pairs.
+// DirectedSpecs: for every mergeable SEC code and every header tweak, two files of that class alone with one shared
+// pool header and one route, distinct traces, the second file tweaked: identifying tweaks must keep the batches apart,
+// the others must let them share a batch - whatever the class-specific rendering of the header is.
+func DirectedSpecs() []Spec {
+	var out []Spec
+	for _, sec := range MergeSECs() {
+		for tw := 1; tw < numTweaks; tw++ {
+			o := gen.Opts{SECs: []string{sec}, HeaderPool: 1, Routes: 1, PresetTraces: true, MinBatches: 1, MaxBatches: 1, MaxEntries: 2}
+			h := uint64(len(out))
+			out = append(out, Spec{Opts: o, Seeds: []uint64{1000 + 2*h, 1001 + 2*h}, Tweaks: []int{TweakNone, tw}, Reroute: []int{0, 0}, ShiftTraces: []int{0, 1}})
+		}
+	}
+	return out
+}
+
 func DrawSpec(r *gen.Rand, maxFiles int) Spec {
 	o := gen.Opts{
 		SECs:            MergeSECs(),
@@ -310,6 +469,12 @@ func DrawSpec(r *gen.Rand, maxFiles int) Spec {
 	if r.Chance(1, 5) {
 		// a small SEC set makes the header pool denser in addenda-carrying classes
 		o.SECs = [][]string{{"PPD", "CCD"}, {"CTX"}, {"WEB", "TEL", "PPD"}, {"CTX", "PPD", "COR"}, {"POS", "SHR", "MTE"}}[r.Intn(5)]
+	}
+	if r.Chance(1, 6) {
+		// one SEC code alone: every batch of every file is of that class, so identifying-field tweaks meet the
+		// class-specific renderings of the header (ENR blanks the effective entry date column, …)
+		all := MergeSECs()
+		o.SECs = []string{all[r.Intn(len(all))]}
 	}
 	if r.Chance(1, 8) {
 		o.Offset = true
@@ -347,6 +512,15 @@ func DrawSpec(r *gen.Rand, maxFiles int) Spec {
 	s.SamePointer = n >= 2 && r.Chance(1, 10)
 	s.NeedOpts = r.Chance(1, 6)
 	s.ShortTraces = r.Chance(1, 6)
+	if !s.NeedOpts && r.Chance(1, 3) {
+		for i := 0; i < n; i++ {
+			fo := 0
+			if r.Chance(2, 3) {
+				fo = r.Range(1, 5)
+			}
+			s.FileOpts = append(s.FileOpts, fo)
+		}
+	}
 	return s
 }
 
